@@ -28,18 +28,25 @@ import (
 //   direct   Context.Respond called directly (nil route / route without operation / produces argument different
 //            from the route's / a response format already stored in the request / a basic authenticator that examined
 //            the request first: the marker it leaves is compared with the model's and decides the challenge)
+//   hist     2-5 requests answered one after the other by ONE Context (one API handler) of a description with several
+//            operations: same path under different methods, different paths, operations with and without operationId,
+//            different declared success codes and produces lists, security requirements with several alternatives and
+//            several schemes per alternative (one basic scheme, two api-key schemes, the anonymous alternative; the basic
+//            scheme in every position). Every answer is compared with the model of the single request AND with the answer
+//            a fresh Context gives to the same request. A history of one request is the single-call case of a requirement
+//            with several alternatives.
 
 type c08In struct {
-	Kind     string `json:"kind"`               // serve | direct
-	Defaults string `json:"defaults"`           // json | none | custom
-	Default  Bs     `json:"default,omitempty"`  // custom: the API default produces
-	Produces []Bs   `json:"produces"`           // operation-level produces as declared
-	Register []Bs   `json:"register"`           // media types handed to RegisterProducer
-	Lines    []Bs   `json:"lines,omitempty"`    // Accept header lines
-	Method   string `json:"method"`             // HEAD GET POST
-	Codes    []int  `json:"codes"`              // declared response codes, 0 = default
-	Data     string `json:"data"`               // value | nil | resp:<code> | notimpl | custom | err:<code> | err:plain | err:composite:<code>
-	Auth     string `json:"auth,omitempty"`     // "" | basic
+	Kind     string `json:"kind"`              // serve | direct
+	Defaults string `json:"defaults"`          // json | none | custom
+	Default  Bs     `json:"default,omitempty"` // custom: the API default produces
+	Produces []Bs   `json:"produces"`          // operation-level produces as declared
+	Register []Bs   `json:"register"`          // media types handed to RegisterProducer
+	Lines    []Bs   `json:"lines,omitempty"`   // Accept header lines
+	Method   string `json:"method"`            // HEAD GET POST
+	Codes    []int  `json:"codes"`             // declared response codes, 0 = default
+	Data     string `json:"data"`              // value | nil | resp:<code> | notimpl | custom | err:<code> | err:plain | err:composite:<code>
+	Auth     string `json:"auth,omitempty"`    // "" | basic
 	Realm    Bs     `json:"realm,omitempty"`
 	Attempt  string `json:"attempt,omitempty"`  // none | bad | good (SetBasicAuth u:<attempt>) | raw (the Authorization header is Authz as it stands)
 	Authz    Bs     `json:"authz,omitempty"`    // raw: value of the Authorization header (may be empty: header present, no value)
@@ -50,6 +57,29 @@ type c08In struct {
 	Route       string `json:"route,omitempty"`        // nil | real | noop
 	CacheOffers []Bs   `json:"cache_offers,omitempty"` // ResponseFormat is called with these first (stores its answer)
 	UseCache    bool   `json:"use_cache,omitempty"`
+	// hist only (Produces, Method, Codes, Data, Auth, Attempt, Authz, Lines are per operation / per step there)
+	Ops   []c08Op   `json:"ops,omitempty"`
+	Steps []c08Step `json:"steps,omitempty"`
+}
+
+// one operation of a hist description
+type c08Op struct {
+	Method   string     `json:"method"`
+	Path     string     `json:"path"`               // /x | /y | /x/{id}
+	ID       string     `json:"id,omitempty"`       // operationId; empty = the operation has none
+	Codes    []int      `json:"codes"`              // declared response codes, 0 = default
+	Produces []Bs       `json:"produces,omitempty"` // operation-level produces
+	Security [][]string `json:"security,omitempty"` // alternatives, each a set of scheme names (basic, k1, k2); an empty alternative = anonymous
+}
+
+// one request of a history
+type c08Step struct {
+	Op      int               `json:"op"`
+	Lines   []Bs              `json:"lines,omitempty"`
+	Attempt string            `json:"attempt,omitempty"` // basic credentials, as in c08In
+	Authz   Bs                `json:"authz,omitempty"`
+	Keys    map[string]string `json:"keys,omitempty"` // api-key scheme -> token sent ("" none, good, bad<code>)
+	Data    string            `json:"data"`
 }
 
 type c08Call struct {
@@ -72,6 +102,16 @@ type c08Obs struct {
 	Body       Bs        `json:"body,omitempty"`
 	Errs       []int     `json:"errs,omitempty"`
 	Ran        bool      `json:"ran,omitempty"`
+	// hist
+	Alts  [][]string   `json:"alts,omitempty"`  // a step: the route's alternatives, schemes in the order the route consults them
+	Steps []c08StepObs `json:"steps,omitempty"` // the case: one entry per request
+}
+
+// what one request of a history was answered inside the history and by a fresh Context
+type c08StepObs struct {
+	Hist       c08Obs `json:"hist"`
+	Fresh      c08Obs `json:"fresh"`
+	Comparable bool   `json:"comparable"` // the fresh Context consults the schemes in the same order (Go map iteration decides it per router)
 }
 
 type c08 struct{}
@@ -318,6 +358,9 @@ func c08DirectAuth(in c08In) bool { return len(in.Realm) > 0 || in.Attempt != ""
 
 func (c08) Run(inAny any) any {
 	in := inAny.(c08In)
+	if in.Kind == "hist" {
+		return c08RunHist(in)
+	}
 	var obs c08Obs
 	log := &c08Log{}
 	rw := &c08Writer{h: http.Header{}}
@@ -435,6 +478,251 @@ func (c08) Run(inAny any) any {
 	return obs
 }
 
+// ---- histories on one Context ----
+
+var c08KeyHeader = map[string]string{"k1": "X-K1", "k2": "X-K2"}
+
+func c08HistDoc(in c08In) string {
+	paths := map[string]any{}
+	usesSec := false
+	for _, op := range in.Ops {
+		o := map[string]any{}
+		if op.ID != "" {
+			o["operationId"] = op.ID
+		}
+		if len(op.Produces) > 0 {
+			o["produces"] = bsList(op.Produces)
+		}
+		resp := map[string]any{}
+		for _, c := range op.Codes {
+			if c == 0 {
+				resp["default"] = map[string]any{"description": "d"}
+			} else {
+				resp[fmt.Sprint(c)] = map[string]any{"description": "r"}
+			}
+		}
+		o["responses"] = resp
+		if strings.Contains(op.Path, "{id}") {
+			o["parameters"] = []any{map[string]any{"name": "id", "in": "path", "type": "string", "required": true}}
+		}
+		if len(op.Security) > 0 {
+			usesSec = true
+			var alts []any
+			for _, alt := range op.Security {
+				m := map[string]any{}
+				for _, name := range alt {
+					m[name] = []string{}
+				}
+				alts = append(alts, m)
+			}
+			o["security"] = alts
+		}
+		item, _ := paths[op.Path].(map[string]any)
+		if item == nil {
+			item = map[string]any{}
+			paths[op.Path] = item
+		}
+		item[strings.ToLower(op.Method)] = o
+	}
+	doc := map[string]any{"swagger": "2.0", "info": map[string]any{"title": "t", "version": "1"}, "paths": paths}
+	if usesSec {
+		doc["securityDefinitions"] = map[string]any{
+			"basic": map[string]any{"type": "basic"},
+			"k1":    map[string]any{"type": "apiKey", "in": "header", "name": c08KeyHeader["k1"]},
+			"k2":    map[string]any{"type": "apiKey", "in": "header", "name": c08KeyHeader["k2"]},
+		}
+	}
+	b, _ := json.Marshal(doc)
+	return string(b)
+}
+
+// c08KeyCode: the code of the error the api-key authentication function returns for a refused token (bad<code>).
+func c08KeyCode(token string) int {
+	code := 401
+	fmt.Sscanf(strings.TrimPrefix(token, "bad"), "%d", &code)
+	return code
+}
+
+// c08Env is one API + Context + handler chain; data/ran belong to the request being answered.
+type c08Env struct {
+	ctx        *middleware.Context
+	h          http.Handler
+	log        *c08Log
+	data       interface{}
+	ran        bool
+	def        string
+	registered []Bs
+	rebuild    func() // replaces ctx and h by a new Context over the same API
+}
+
+func c08NewEnv(in c08In) *c08Env {
+	env := &c08Env{log: &c08Log{}}
+	doc, err := loads.Analyzed(json.RawMessage(c08HistDoc(in)), "")
+	if err != nil {
+		panic(err)
+	}
+	api := untyped.NewAPI(doc)
+	switch in.Defaults {
+	case "none":
+		api.WithoutJSONDefaults()
+	case "custom":
+		api.WithoutJSONDefaults()
+		api.DefaultProduces = string(in.Default)
+	default:
+		api.RegisterProducer(runtime.JSONMime, &c08Producer{runtime.JSONMime, env.log})
+	}
+	for _, mt := range in.Register {
+		api.RegisterProducer(string(mt), &c08Producer{strings.ToLower(string(mt)), env.log})
+	}
+	api.ServeError = func(w http.ResponseWriter, r *http.Request, err error) {
+		env.log.errs = append(env.log.errs, c08ErrCode(err))
+		w.WriteHeader(599)
+	}
+	for _, op := range in.Ops {
+		api.RegisterOperation(op.Method, op.Path, runtime.OperationHandlerFunc(func(interface{}) (interface{}, error) {
+			env.ran = true
+			if e, ok := env.data.(error); ok {
+				return nil, e
+			}
+			return env.data, nil
+		}))
+	}
+	api.RegisterAuth("basic", c08Authenticator(in))
+	for name, hdr := range c08KeyHeader {
+		api.RegisterAuth(name, security.APIKeyAuth(hdr, "header", func(token string) (interface{}, error) {
+			if token == "good" {
+				return "key-principal", nil
+			}
+			return nil, errors.New(int32(c08KeyCode(token)), "bad key")
+		}))
+	}
+	env.def = api.DefaultProduces
+	seen := map[string]bool{}
+	probe := []string{runtime.JSONMime}
+	for _, mt := range in.Register {
+		probe = append(probe, strings.ToLower(string(mt)))
+	}
+	for k := range api.ProducersFor(probe) {
+		if !seen[k] {
+			seen[k] = true
+			env.registered = append(env.registered, Bs(k))
+		}
+	}
+	sort.Slice(env.registered, func(i, j int) bool { return env.registered[i] < env.registered[j] })
+	env.rebuild = func() {
+		env.ctx = middleware.NewContext(doc, api, nil)
+		env.h = env.ctx.APIHandler(nil)
+	}
+	env.rebuild()
+	return env
+}
+
+func c08StepRequest(in c08In, st c08Step) *http.Request {
+	op := in.Ops[st.Op]
+	req := httptest.NewRequest(op.Method, strings.ReplaceAll(op.Path, "{id}", "7"), nil)
+	if len(st.Lines) > 0 {
+		req.Header["Accept"] = bsList(st.Lines)
+	}
+	c08SetAuth(req, c08In{Attempt: st.Attempt, Authz: st.Authz})
+	for name, token := range st.Keys {
+		if token != "" {
+			req.Header.Set(c08KeyHeader[name], token)
+		}
+	}
+	return req
+}
+
+// c08Answer sends the request of one step through the handler chain of env.
+func c08Answer(env *c08Env, in c08In, st c08Step) c08Obs {
+	var obs c08Obs
+	rw := &c08Writer{h: http.Header{}}
+	env.log.calls, env.log.errs = nil, nil
+	env.data, _ = c08Data(st.Data)
+	env.ran = false
+	panicked, msg := recoverTo(func() {
+		mr, _, ok := env.ctx.RouteInfo(c08StepRequest(in, st))
+		if !ok {
+			panic("route not found")
+		}
+		obs.RouteProd = toBs(mr.Produces)
+		for _, ra := range mr.Authenticators {
+			alt := append([]string{}, ra.Schemes...)
+			if len(alt) == 1 && alt[0] == "" {
+				alt = []string{}
+			}
+			obs.Alts = append(obs.Alts, alt)
+		}
+		env.h.ServeHTTP(rw, c08StepRequest(in, st))
+	})
+	if panicked {
+		switch {
+		case strings.Contains(msg, "nil pointer dereference"):
+			obs.Panic = 1
+		case strings.Contains(msg, "can't find a producer for"):
+			obs.Panic = 2
+		default:
+			obs.Panic = 3
+		}
+		obs.PanicText = msg
+	}
+	obs.Status = rw.status
+	if v := rw.h["Content-Type"]; len(v) > 0 {
+		obs.CType = Bs(strings.Join(v, "\x00"))
+	}
+	obs.WWW = toBs(rw.h["Www-Authenticate"])
+	obs.Calls = env.log.calls
+	obs.Body = Bs(rw.body)
+	obs.Errs = env.log.errs
+	obs.Ran = env.ran
+	return obs
+}
+
+func c08SameAlts(a, b [][]string) bool {
+	if len(a) != len(b) {
+		return false
+	}
+	for i := range a {
+		if strings.Join(a[i], ",") != strings.Join(b[i], ",") {
+			return false
+		}
+	}
+	return true
+}
+
+func c08RunHist(in c08In) any {
+	var obs c08Obs
+	panicked, msg := recoverTo(func() {
+		env := c08NewEnv(in)
+		obs.Default = Bs(env.def)
+		obs.Registered = env.registered
+		for _, st := range in.Steps {
+			obs.Steps = append(obs.Steps, c08StepObs{Hist: c08Answer(env, in, st)})
+		}
+		// the same requests, each answered by a Context that has answered nothing before
+		for i, st := range in.Steps {
+			so := &obs.Steps[i]
+			if i == 0 {
+				// the first request of a history IS answered by a Context that has answered nothing before
+				so.Fresh, so.Comparable = so.Hist, false
+				continue
+			}
+			fresh := c08NewEnv(in)
+			so.Fresh = c08Answer(fresh, in, st)
+			so.Comparable = c08SameAlts(so.Hist.Alts, so.Fresh.Alts)
+			for try := 0; !so.Comparable && try < 8; try++ {
+				fresh.rebuild() // the order in which the schemes of an alternative are consulted is drawn per router
+				so.Fresh = c08Answer(fresh, in, st)
+				so.Comparable = c08SameAlts(so.Hist.Alts, so.Fresh.Alts)
+			}
+		}
+	})
+	if panicked {
+		obs.Panic = 3
+		obs.PanicText = msg
+	}
+	return obs
+}
+
 // ---- Gallina ----
 
 func c08CoqObs(o c08Obs) string {
@@ -454,8 +742,53 @@ func c08Codes(codes []int) string {
 	return coqList(cs, func(c int) string { return coqNatBig(c) })
 }
 
+// c08CoqSec renders the security requirement of a step as the route consults it, with what the request presents to each scheme.
+func c08CoqSec(in c08In, st c08Step, alts [][]string) string {
+	as := coqList(alts, func(alt []string) string {
+		return coqList(alt, func(name string) string {
+			if name == "basic" {
+				return "SBasic"
+			}
+			switch token := st.Keys[name]; {
+			case token == "":
+				return "(SKey KeyAbsent)"
+			case token == "good":
+				return "(SKey KeyGood)"
+			default:
+				return fmt.Sprintf("(SKey (KeyBad %s))", coqNatBig(c08KeyCode(token)))
+			}
+		})
+	})
+	return fmt.Sprintf("(mksec %s %s %s %s)", coqBytes(c08Realm(in)), c08CoqAttempt[c08AttemptKind(c08In{Attempt: st.Attempt, Authz: st.Authz})],
+		coqNatBig(in.ErrCode), as)
+}
+
+func c08CoqHist(in c08In, obs c08Obs) string {
+	if obs.Panic != 0 || len(obs.Steps) != len(in.Steps) {
+		// the set-up itself failed: an empty history never corresponds
+		return fmt.Sprintf("CHist %s %s []", coqBytes(string(obs.Default)), coqBytesList(bsList(obs.Registered)))
+	}
+	idx := make([]int, len(in.Steps))
+	for i := range idx {
+		idx[i] = i
+	}
+	steps := coqList(idx, func(i int) string {
+		st, so := in.Steps[i], obs.Steps[i]
+		op := in.Ops[st.Op]
+		_, tag := c08Data(st.Data)
+		return fmt.Sprintf("(HStep %s %s %s %s %s %s %s %s %s %s %s %s %s)",
+			coqBytesList(bsList(op.Produces)), coqBytesList(bsList(so.Hist.RouteProd)), c08Codes(op.Codes), coqBytesList(bsList(st.Lines)),
+			coqBool(op.Method == "HEAD"), c08CoqSec(in, st, so.Hist.Alts), c08CoqData(st.Data), coqBytes(tag),
+			coqBool(so.Hist.Ran), c08CoqObs(so.Hist), coqBool(so.Comparable), coqBool(so.Fresh.Ran), c08CoqObs(so.Fresh))
+	})
+	return fmt.Sprintf("CHist %s %s %s", coqBytes(string(obs.Default)), coqBytesList(bsList(obs.Registered)), steps)
+}
+
 func (c08) Coq(inAny any, obsAny any) string {
 	in, obs := inAny.(c08In), obsAny.(c08Obs)
+	if in.Kind == "hist" {
+		return c08CoqHist(in, obs)
+	}
 	_, tag := c08Data(in.Data)
 	head := coqBool(in.Method == "HEAD")
 	if in.Kind == "serve" {
@@ -490,8 +823,100 @@ func (c08) Coq(inAny any, obsAny any) string {
 
 func (c08) Classify(inAny any, obsAny any) []string { return nil }
 
+// c08HistCategory: number of requests, how many of the operations addressed have no operationId, whether two requests
+// address the same path under different methods, the widest security requirement (alternatives x schemes) and where the
+// basic scheme stands in it, and the kinds of answers.
+func c08HistCategory(in c08In, obs c08Obs) (string, bool) {
+	idless, maxAlts, maxSchemes := 0, 0, 0
+	used := map[int]bool{}
+	paths := map[string]map[string]bool{}
+	codes := map[int]bool{}
+	basicPos := "nobasic"
+	for _, st := range in.Steps {
+		op := in.Ops[st.Op]
+		if !used[st.Op] {
+			used[st.Op] = true
+			if op.ID == "" {
+				idless++
+			}
+		}
+		if paths[op.Path] == nil {
+			paths[op.Path] = map[string]bool{}
+		}
+		paths[op.Path][op.Method] = true
+		min := 0
+		for _, c := range op.Codes {
+			if c >= 200 && c < 300 && (min == 0 || c < min) {
+				min = c
+			}
+		}
+		codes[min] = true
+		if len(op.Security) > maxAlts {
+			maxAlts = len(op.Security)
+		}
+		for ai, alt := range op.Security {
+			if len(alt) > maxSchemes {
+				maxSchemes = len(alt)
+			}
+			for _, name := range alt {
+				if name != "basic" {
+					continue
+				}
+				pos := "basic-only"
+				switch {
+				case len(op.Security) == 1 && len(alt) == 1:
+				case len(alt) > 1:
+					pos = "basic-among-schemes"
+				case ai == 0:
+					pos = "basic-first"
+				case ai == len(op.Security)-1:
+					pos = "basic-last"
+				default:
+					pos = "basic-middle"
+				}
+				if basicPos == "nobasic" || basicPos == "basic-only" || pos == "basic-among-schemes" {
+					basicPos = pos
+				}
+			}
+		}
+	}
+	samePath := ""
+	for _, ms := range paths {
+		if len(ms) > 1 {
+			samePath = "/same-path"
+		}
+	}
+	outcomes := map[string]bool{}
+	for _, so := range obs.Steps {
+		switch {
+		case so.Hist.Panic != 0:
+			outcomes["panic"] = true
+		case len(so.Hist.Errs) > 0:
+			o := fmt.Sprintf("error-%d", so.Hist.Errs[0])
+			if len(so.Hist.WWW) > 0 {
+				o += "+challenge"
+			}
+			outcomes[o] = true
+		case len(so.Hist.Calls) > 0:
+			outcomes["body"] = true
+		default:
+			outcomes["no-body"] = true
+		}
+	}
+	var os []string
+	for o := range outcomes {
+		os = append(os, o)
+	}
+	sort.Strings(os)
+	cat := fmt.Sprintf("hist/steps%d/idless%d%s/codes%d/sec%dx%d/%s/%s", len(in.Steps), idless, samePath, len(codes), maxAlts, maxSchemes, basicPos, strings.Join(os, "+"))
+	return cat, len(in.Steps) >= 2 || maxAlts >= 2 || maxSchemes >= 2
+}
+
 func (c08) Category(inAny any, obsAny any) (string, bool) {
 	in, obs := inAny.(c08In), obsAny.(c08Obs)
+	if in.Kind == "hist" {
+		return c08HistCategory(in, obs)
+	}
 	code := "default-only"
 	min := 0
 	for _, c := range in.Codes {
@@ -671,8 +1096,175 @@ func c08Attempt(r *rand.Rand, in *c08In) {
 	}
 }
 
+// ---- generation of histories ----
+
+var c08HistSlots = [][2]string{{"GET", "/x"}, {"POST", "/x"}, {"PUT", "/x"}, {"DELETE", "/x"}, {"HEAD", "/x"}, {"GET", "/y"}, {"POST", "/y"},
+	{"GET", "/x/{id}"}, {"DELETE", "/x/{id}"}, {"PUT", "/x/{id}"}}
+
+// security requirements: the basic scheme alone, before / between / after other alternatives, together with other schemes
+// in one alternative, next to the anonymous alternative, and requirements without it
+var c08SecShapes = [][][]string{
+	{{"basic"}},
+	{{"basic"}, {"k1"}},
+	{{"k1"}, {"basic"}},
+	{{"k1"}, {"basic"}, {"k2"}},
+	{{"basic"}, {"k1"}, {"k2"}},
+	{{"k1"}, {"k2"}, {"basic"}},
+	{{"basic", "k1"}},
+	{{"basic", "k1"}, {"k2"}},
+	{{"k2"}, {"basic", "k1"}},
+	{{"k1", "k2"}, {"basic"}},
+	{{"basic", "k1", "k2"}},
+	{{"basic"}, {"basic", "k1"}},
+	{{"basic"}, {}},
+	{{}, {"basic"}},
+	{{"k1"}},
+	{{"k1", "k2"}},
+	{{"k1"}, {}},
+}
+
+var c08KeyTokens = []string{"", "good", "bad401", "bad403"}
+
+func c08HistRegister(in *c08In) {
+	seen := map[string]bool{}
+	for _, op := range in.Ops {
+		for _, p := range op.Produces {
+			base := strings.SplitN(string(p), ";", 2)[0]
+			if !seen[base] {
+				seen[base] = true
+				in.Register = append(in.Register, Bs(base))
+			}
+		}
+	}
+}
+
+// c08HistStatus: operations that differ in their declared success status (and in what they produce), requests in the given order.
+func c08HistStatus(ids []string, order []int, data string) c08In {
+	in := c08In{Kind: "hist", Defaults: "json", ErrCode: 401}
+	specs := []c08Op{
+		{Method: "GET", Path: "/x", Codes: []int{200}, Produces: toBs([]string{"application/json", "text/plain"})},
+		{Method: "POST", Path: "/x", Codes: []int{201, 0}, Produces: toBs([]string{"text/plain; charset=utf-8"})},
+		{Method: "DELETE", Path: "/x/{id}", Codes: []int{204}},
+		{Method: "PUT", Path: "/x/{id}", Codes: []int{0}, Produces: toBs([]string{"text/csv", "application/xml;v=2"})},
+	}
+	for i := range specs {
+		specs[i].ID = ids[i]
+	}
+	in.Ops = specs
+	c08HistRegister(&in)
+	for _, o := range order {
+		in.Steps = append(in.Steps, c08Step{Op: o, Data: data})
+	}
+	return in
+}
+
+func c08EnumerateHist() []any {
+	var out []any
+	// different success codes: every order of two and three of four operations, with none / some / all operationIds
+	idSets := [][]string{{"", "", "", ""}, {"getX", "", "", "putX"}, {"a", "b", "c", "d"}, {"", "op", "", ""}}
+	orders := [][]int{{0, 1}, {1, 0}, {0, 2}, {2, 0}, {1, 2}, {2, 1}, {0, 3}, {3, 0}, {2, 3}, {3, 2}, {0, 0, 1}, {2, 2, 0},
+		{0, 1, 2}, {0, 2, 1}, {1, 0, 2}, {1, 2, 0}, {2, 0, 1}, {2, 1, 0}, {0, 1, 2, 0}, {2, 3, 1, 0, 2}}
+	for _, ids := range idSets {
+		for k, order := range orders {
+			out = append(out, c08HistStatus(ids, order, []string{"value", "value", "nil", "resp:0"}[k%4]))
+		}
+	}
+	// security requirements: every shape x what the request presents to the basic scheme x to the first api-key scheme
+	// x the handler's outcome, one request each (the single-call cases of requirements with several alternatives)
+	n := 0
+	basics := []c08Step{{Attempt: "none"}, {Attempt: "bad"}, {Attempt: "good"}, {Attempt: "raw", Authz: "Basic !!!"}, {Attempt: "raw", Authz: "Bearer x"}}
+	for _, shape := range c08SecShapes {
+		for _, b := range basics {
+			for _, k1 := range c08KeyTokens[:3] {
+				{
+					n++
+					data := []string{"value", "err:404"}[(n/3)%2]
+					in := c08In{Kind: "hist", Defaults: "json", Realm: Bs([]string{"", "my realm", `a"b`}[n%3]), Variant: c08Variants[n%4], ErrCode: []int{401, 403}[n%2]}
+					ps := c08ProduceSets[1+n%3]
+					in.Ops = []c08Op{{Method: c08Methods[n%3], Path: "/x", ID: []string{"", "op"}[n%2], Codes: []int{200}, Produces: toBs(ps), Security: shape}}
+					c08HistRegister(&in)
+					st := c08Step{Op: 0, Attempt: b.Attempt, Authz: b.Authz, Data: data, Keys: map[string]string{"k1": k1, "k2": []string{"", "bad403", "good", ""}[n%4]}}
+					if n%5 == 0 {
+						st.Lines = []Bs{"text/plain;q=0.9, */*;q=0.1"}
+					}
+					in.Steps = []c08Step{st}
+					out = append(out, in)
+				}
+			}
+		}
+	}
+	return out
+}
+
+// c08GenHist: one description with 2-4 operations (several of them on one path, most without operationId, different
+// declared codes, produces lists and security requirements) and 2-5 requests; neighbouring requests tend to address
+// operations that share the path or the (absent) operationId, and the same operation is asked again with other credentials.
+func c08GenHist(r *rand.Rand) c08In {
+	in := c08In{Kind: "hist", Defaults: "json", ErrCode: []int{401, 403, 401}[r.Intn(3)]}
+	switch r.Intn(12) {
+	case 0:
+		in.Defaults = "none"
+	case 1:
+		in.Defaults = "custom"
+		in.Default = Bs([]string{"text/plain", "application/xml", "text/csv"}[r.Intn(3)])
+	}
+	in.Realm = Bs(c08Realms[r.Intn(len(c08Realms))])
+	if r.Intn(2) == 0 {
+		in.Variant = c08Variants[r.Intn(len(c08Variants))]
+	}
+	nops := 2 + r.Intn(3)
+	slots := r.Perm(len(c08HistSlots))
+	if r.Intn(2) == 0 { // all on one path
+		slots = r.Perm(5)
+	}
+	idMode := r.Intn(4)  // 0,1: none has an id; 2: some; 3: all
+	secMode := r.Intn(3) // 0: no security anywhere; 1: some operations; 2: all
+	for i := 0; i < nops; i++ {
+		sl := c08HistSlots[slots[i]]
+		op := c08Op{Method: sl[0], Path: sl[1], Codes: c08CodeSets[r.Intn(len(c08CodeSets))], Produces: c08Produces(r)}
+		if r.Intn(3) == 0 {
+			op.Codes = [][]int{{200}, {201}, {204}, {202, 0}}[r.Intn(4)]
+		}
+		if idMode == 3 || (idMode == 2 && r.Intn(2) == 0) {
+			op.ID = fmt.Sprintf("op%d", i)
+		}
+		if secMode == 2 || (secMode == 1 && r.Intn(2) == 0) {
+			op.Security = c08SecShapes[r.Intn(len(c08SecShapes))]
+		}
+		in.Ops = append(in.Ops, op)
+	}
+	var all []Bs
+	for _, op := range in.Ops {
+		all = append(all, op.Produces...)
+	}
+	in.Register = c08Register(r, all)
+	if in.Defaults == "custom" && r.Intn(4) != 0 {
+		in.Register = append(in.Register, in.Default)
+	}
+	nsteps := 2 + r.Intn(4)
+	for i := 0; i < nsteps; i++ {
+		st := c08Step{Op: r.Intn(nops), Data: "value"}
+		if r.Intn(3) == 0 {
+			st.Data = c08DataKinds[r.Intn(len(c08DataKinds))]
+		}
+		st.Lines = c08Accept(r, in.Ops[st.Op].Produces)
+		if r.Intn(3) != 0 {
+			st.Lines = nil
+		}
+		if len(in.Ops[st.Op].Security) > 0 || r.Intn(4) == 0 {
+			var a c08In
+			c08Attempt(r, &a)
+			st.Attempt, st.Authz = a.Attempt, a.Authz
+			st.Keys = map[string]string{"k1": c08KeyTokens[r.Intn(len(c08KeyTokens))], "k2": c08KeyTokens[r.Intn(len(c08KeyTokens))]}
+		}
+		in.Steps = append(in.Steps, st)
+	}
+	return in
+}
+
 func (c08) Enumerate(tier string) []any {
 	var out []any
+	out = append(out, c08EnumerateHist()...)
 	// failed and accepted basic-auth attempts: authenticator variants x realms x credentials, through the handler and
 	// through a direct Respond of an error after the authenticator examined the request
 	n := 0
@@ -809,6 +1401,9 @@ func c08Register(r *rand.Rand, produces []Bs) []Bs {
 }
 
 func (c08) Gen(r *rand.Rand, tier string, i int) any {
+	if i%10 == 9 {
+		return c08GenHist(r)
+	}
 	in := c08In{Kind: "serve", Defaults: "json"}
 	switch r.Intn(12) {
 	case 0:
